@@ -155,4 +155,6 @@ def run(ctx):
     # version K's own codec, or an enumerator that only a later version declares is accepted (rule shared with C14)
     from . import c14
     c14.check_protocol_routing(ctx)
+    from . import c11
+    c11.check_scope_tables(ctx)
     return "other", EXPLANATION, {}
